@@ -36,6 +36,11 @@ def run(ctx):
     stats2 = tc.correspondence_chunked(ctx, binp, runner, ["hist", "c15"], ctx.seed + 7919, m, "H",
                                        "state history (profile c15)")
     ctx.notes["history_distribution_c15"] = stats2
+    # the nibble-path primitives (Stem / MutStem / StemIter / follow_stem) against Nibbles.v
+    k = 3000 if ctx.quick else 60000
+    stats3 = tc.correspondence_chunked(ctx, binp, runner, ["stem"], ctx.seed, k, "N",
+                                       "nibble-path primitives", with_spec=False)
+    ctx.notes["stem_cases"] = stats3
     rc, out = c.run_bin(binp, ["directed"], timeout=300)
     dd, _, _ = tc.parse_lines(out)
     obs = {}
@@ -60,6 +65,9 @@ def run(ctx):
         "length 0,1,63,64,65,300 and 0-11; operations insert/get/read/set/get_mut/delete/delete_prefix/iter/next/"
         "delete_iter/new_generation/normalize/freeze/thaw(3 variants: in memory, stored, stored+reloaded from the backing "
         "store); every 4th history runs generations through MutableState (get_inner/make_fresh_generation/freeze/thaw), "
-        "the others drive MutableTrie through the H1 wrappers; non-trivial = the implementation returned at least one "
+        "the others drive MutableTrie through the H1 wrappers; rollbacks are `- r` (touch the parent) or `~ r` (abandon: drop the "
+        "newer MutableStates without touching the parent, 40%); stem cases: push/truncate/extend/prepend_parts/iterator probes/"
+        "follow_stem on nibble strings of length 0-3, 62-66, 126-129 and 0-11, 1/12 of the partial stems with a dirty low nibble; "
+        "non-trivial = the implementation returned at least one "
         "result other than skip/locked/none; distinct = distinct hash of the operation list")
     tc.finish(ctx, proof_broken)
